@@ -84,6 +84,9 @@ re_search_fn = z3.Function("re_search", z3.StringSort(), z3.StringSort(), z3.Boo
 
 def re_search(eng, st, recv, args, kw, node):
     """re.search(pattern, string) as a truth value: uninterpreted predicate of (pattern, string)."""
+    if not all(isinstance(a, V) for a in args[:2]):
+        eng.raise_exc(st, "TypeError", node)      # re.search(pattern, None)
+        return
     yield st, V(BOOL, re_search_fn(args[0].term, args[1].term))
 
 
@@ -168,3 +171,28 @@ def _pick(name, edges, dropped, picked, props):
 
 PICK_PARENT = _pick("pick_parent", "_setup_nodes", "_dropped_setup_nodes", "_picked_by_cleanup_nodes", ["C02", "C08"])
 PICK_CHILD = _pick("pick_child", "_cleanup_nodes", "_dropped_cleanup_nodes", "_picked_by_setup_nodes", ["C02", "C08"])
+
+
+# ---------------------------------------------------------------- get_dependency (C06, C01): the already parsed producer
+SAME_OBJECT = ("(test_object in n.objects or exists(n.objects, lambda t: t.long_suffix == test_object.long_suffix))")
+PROVIDES = (f"({SAME_OBJECT} and (re_search('(\\\\.|^)' + restriction + '(\\\\.|$)', n.params['name']) or "
+            f"restriction == test_object.object_typed_params(n.params).get('set_state')))")
+GET_DEPENDENCY = Contract(
+    target=f"{NODE}::TestNode.get_dependency",
+    params={"self": Ref("TestNode"), "restriction": STR, "test_object": Ref("TestObject")},
+    requires=["wf_map(self._setup_nodes)",
+              "forall(keys_of(self._setup_nodes), lambda n: n is not None and forall(n.objects, lambda t: t is not None) "
+              "and 'name' in n.params)"],
+    overrides=BRIDGE_OVERRIDES,
+    extra_names={"re_search": _C.VFunc("handler", fn=lambda e, s, a, k, n: re_search(e, s, None, a, k, n), name="re_search")},
+    loops={0: {"invariants": [f"forall(range(0, _i), lambda j: let(keys_of(self._setup_nodes)[j], lambda n: not {PROVIDES}))"],
+               "kinds": {"test_node": Ref("TestNode"), "node_object_suffices": Seq(STR), "setup_object_params": Ref("Params")}}},
+    ensures=[
+        ("found_is_a_parent_for_this_object", f"((result in self._setup_nodes and let(result, lambda n: {PROVIDES})) "
+                                              f"if result is not None else True)"),
+        ("none_only_if_no_parent_provides", f"implies(result is None, forall(keys_of(self._setup_nodes), lambda n: not {PROVIDES}))"),
+    ],
+    result_kind=(Ref("TestNode"), "nullable"),
+    frame=[], props=["C06", "C01"],
+    assumes=["re.search as an uninterpreted predicate of (pattern, string)"],
+)
